@@ -70,8 +70,13 @@ class Untranslatable(Exception):
 
 ANN = {"int": "Z", "bool": "bool", "Sequence[int]": "list Z", "tuple[int, ...]": "list Z", "list[int]": "list Z", "torch.Size": "list Z",
        "Sequence[bool]": "list bool", "Tensor": "tensor", "list[Tensor]": "list tensor", "tuple[Tensor, ...]": "list tensor",
-       "float": "pynum", "tuple[float, float]": "(pynum * pynum)", "Iterator[tuple[int, int]]": "list (Z * Z)"}
+       "float": "pynum", "tuple[float, float]": "(pynum * pynum)", "Iterator[tuple[int, int]]": "list (Z * Z)",
+       "tuple[tuple[int, int], ...]": "list (Z * Z)", "list[bool]": "list bool", "Callable[[int], int]": "(Z -> Z)", "None": "unit",
+       "Exception": "py_exception"}
+# `int | Sequence[int]`-like parameters: Gallina sum type -> (constructor, type) of the Sequence case and of the scalar case
+UNIONS = {"iro_t": (("IroSeq", "list pynum"), ("IroScalar", "pynum")), "root_override": (("OvList", "list Z"), ("OvInt", "Z"))}
 EXN = {"ValueError", "AssertionError", "IndexError", "ZeroDivisionError", "TypeError", "NotImplementedError", "ArithmeticError"}
+HEAPQ = ("heapq.heapify", "heapq.heappush", "heapq.heappop")
 RESERVED = {"end", "in", "at", "fix", "fun", "forall", "exists", "match", "with", "let", "if", "then", "else", "as", "return", "using", "where",
             "Type", "Set", "Prop", "fuel", "bind", "Ret", "Raise", "result", "list", "length", "map", "filter", "fst", "snd", "tensor", "nat", "Z", "bool", "S", "O"}
 
@@ -91,6 +96,9 @@ class Target:
     returns: list = field(default_factory=list)
     ignore_calls: tuple = ("logger.warning", "logger.info", "logger.debug")
     prefix: str = ""               # prepended to every Gallina name emitted for this target (two copies of one function)
+    site_base: int = 0             # added to the ordinals of this function's raise/assert sites (unique sites across functions)
+    calls: dict = field(default_factory=dict)        # source text of a callee expression -> coq_name of a function translated earlier in the run
+    state: list = field(default_factory=list)        # [(source text, name, type)]: lists owned by `self` that the function updates in place
 
 
 def is_list(t): return t.startswith("list ")
@@ -109,6 +117,7 @@ class Fn:
         self.tmp = 0
         self.ret_type = None
         self.mutated: set = set()
+        self.state = [n for _, n, _ in tgt.state]
 
     # ---- helpers
     def fresh(self):
@@ -133,10 +142,17 @@ class Fn:
 
     def atom(self, node):
         s = unp(node)
-        for src, pname, ty in self.tgt.atoms:
+        for src, pname, ty in [*self.tgt.atoms, *self.tgt.state]:
             if s == src:
                 return pname, ty
         return None
+
+    def ret(self, code):
+        """normal completion with value `code` (in state mode together with the current state lists)"""
+        return f"Ret (Returned {code}, ({', '.join(self.state)}))" if self.state else f"Ret {code}"
+
+    def exc(self, cls, k):
+        return f"Ret (Raised {cls} {k}, ({', '.join(self.state)}))" if self.state else f"Raise {cls} {k}"
 
     def truthy(self, node, env):
         b, c, t = self.expr(node, env)
@@ -183,11 +199,17 @@ class Fn:
         return [], self.gname(n.id, env), env[n.id]
 
     def e_BinOp(self, n, env, want):
-        bl, cl, tl = self.expr(n.left, env)
+        if isinstance(n.left, ast.Tuple) and len(n.left.elts) == 1:          # (x,) * n
+            b0, c0, t0 = self.expr(n.left.elts[0], env)
+            bl, cl, tl = b0, f"[{c0}]", "list " + t0
+        else:
+            bl, cl, tl = self.expr(n.left, env)
         br, cr, tr_ = self.expr(n.right, env)
         op = type(n.op).__name__
         if op == "Add" and is_list(tl) and same(tl, tr_):
             return bl + br, f"({cl} ++ {cr})", (tr_ if tl == "list ?" else tl)
+        if op == "Mult" and is_list(tl) and tr_ == "Z":
+            return bl + br, f"(py_list_mul {cl} {cr})", tl
         if tl != "Z" or tr_ != "Z":
             raise Untranslatable(n, f"operator {op} on {tl} and {tr_}")
         if op in ("Add", "Sub", "Mult"):
@@ -242,8 +264,9 @@ class Fn:
             c = f"({dict(Eq='pn_eqb', Lt='pn_ltb', LtE='pn_leb')[o]} {cl} {cr})"
         elif o == "Eq" and is_list(tl) and cr == "[]":
             c = f"(py_is_empty {cl})"
-        elif o == "Eq" and tl == "iro_t" and tr_ == "pynum":     # a sequence never equals a number
-            c = f"(match {cl} with IroScalar v_ => pn_eqb v_ {cr} | IroSeq _ => false end)"
+        elif o == "Eq" and tl in UNIONS and tr_ == UNIONS[tl][1][1]:     # a sequence never equals a number
+            (sq, _), (sc, ty) = UNIONS[tl]
+            c = f"(match {cl} with {sc} v_ => {'pn_eqb v_ ' + cr if ty == 'pynum' else '(v_ =? ' + cr + ')'} | {sq} _ => false end)"
         else:
             raise Untranslatable(node, f"comparison {o} between {tl} and {tr_}")
         return f"(negb {c})" if neg else c
@@ -332,9 +355,57 @@ class Fn:
             raise Untranslatable(node, "the condition of filter/all can raise")
         return f"(fun {ident(var)} => {c})"
 
+    def comprehension(self, node, env):
+        """[e for x in l] / (e for x in l) as the argument of tuple()/list(): map, or py_mapM when e can raise"""
+        if len(node.generators) != 1 or node.generators[0].ifs or node.generators[0].is_async or not isinstance(node.generators[0].target, ast.Name):
+            raise Untranslatable(node, "comprehension with conditions, several `for` or a tuple target")
+        g = node.generators[0]
+        b, c, t = self.expr(g.iter, env)
+        if not is_list(t):
+            raise Untranslatable(node, f"comprehension over a {t}")
+        be, ce, te = self.expr(node.elt, {**env, g.target.id: elem(t)})
+        x = ident(g.target.id)
+        if not be:
+            return b, f"(map (fun {x} => {ce}) {c})", "list " + te
+        tmp = self.fresh()
+        return b + [(tmp, f"(py_mapM (fun {x} =>\n{self.wrap(be, 'Ret ' + ce)}) {c})")], tmp, "list " + te
+
+    def e_ListComp(self, n, env, want):
+        return self.comprehension(n, env)
+
     def e_Call(self, n, env, want):
         f = unp(n.func)
         args, kws = n.args, n.keywords
+        if f in self.tgt.calls or f in self.tr.funcs:                                 # translated function (nested, itself, or earlier target)
+            return self.call_known(n, f, env)
+        if isinstance(n.func, ast.Name) and env.get(f) == "(Z -> Z)" and len(args) == 1 and not kws:      # a callable parameter: total function
+            b, c, t = self.expr(args[0], env)
+            if t != "Z":
+                raise Untranslatable(n, f"callable parameter applied to a {t}")
+            return b, f"({ident(f)} {c})", "Z"
+        if f in ("tuple", "list") and len(args) == 1 and not kws and isinstance(args[0], ast.GeneratorExp):
+            return self.comprehension(args[0], env)
+        if f == "len" and len(args) == 1 and isinstance(args[0], ast.Call) and unp(args[0].func) == "set" and len(args[0].args) == 1 and not kws:
+            b, c, t = self.expr(args[0].args[0], env)
+            if t != "list Z":
+                raise Untranslatable(n, f"len(set(..)) of a {t}")
+            return b, f"(py_len_set {c})", "Z"
+        if f == "enumerate" and len(args) == 1 and not kws:
+            b, c, t = self.expr(args[0], env)
+            if not is_list(t):
+                raise Untranslatable(n, f"enumerate of a {t}")
+            return b, f"(py_enumerate {c})", f"list (Z * {elem(t)})"
+        if f == "sorted":                      # only: sorted(l, key=<second component>, reverse=True) on pairs with an int second component
+            kw = {k.arg: k.value for k in kws}
+            key = kw.get("key")
+            by_snd = key is not None and (unp(key) == "operator.itemgetter(1)" or (isinstance(key, ast.Lambda) and len(key.args.args) == 1
+                                          and unp(key.body) == f"{key.args.args[0].arg}[1]"))
+            if len(args) != 1 or set(kw) != {"key", "reverse"} or not by_snd or not (isinstance(kw["reverse"], ast.Constant) and kw["reverse"].value is True):
+                raise Untranslatable(n, "sorted(..) other than sorted(l, key=operator.itemgetter(1) | lambda p: p[1], reverse=True)")
+            b, c, t = self.expr(args[0], env)
+            if not (is_list(t) and elem(t).endswith("* Z)")):
+                raise Untranslatable(n, f"sorted by the second component of a {t}")
+            return b, f"(py_sorted_desc_snd {c})", t
         if isinstance(n.func, ast.Attribute) and not f.startswith("math."):         # method calls on tensors
             b, c, t = self.expr(n.func.value, env)
             meth = n.func.attr
@@ -354,8 +425,6 @@ class Fn:
                     raise Untranslatable(n, "view with something else than one list of ints")
                 return b + b1, f"(t_view {c} {c1})", "tensor"
             raise Untranslatable(n, f"method `{meth}` on a {t} is outside the subset")
-        if f in self.tr.funcs:                                                        # translated function (or self)
-            return self.call_known(n, f, env)
         if kws:
             raise Untranslatable(n, "keyword arguments to a builtin")
         if f in ("len", "prod", "math.prod", "sum", "list", "tuple", "accumulate", "pairwise") and len(args) == 1:
@@ -389,6 +458,11 @@ class Fn:
             if not is_list(t):
                 raise Untranslatable(n, f"filter over a {t}")
             return b, f"(filter {self.pure_lambda(args[0].args.args[0].arg, args[0].body, env, elem(t), n)} {c})", t
+        if f == "all" and len(args) == 1 and not isinstance(args[0], ast.GeneratorExp):
+            b, c, t = self.expr(args[0], env)
+            if t != "list bool":
+                raise Untranslatable(n, f"all(..) of a {t}")
+            return b, f"(forallb (fun b_ => b_) {c})", "bool"
         if f == "all" and len(args) == 1 and isinstance(args[0], ast.GeneratorExp) and len(args[0].generators) == 1:
             g = args[0].generators[0]
             if g.ifs or g.is_async or not isinstance(g.target, ast.Name):
@@ -413,14 +487,25 @@ class Fn:
         return [vals[p] for p in params]
 
     def call_known(self, n, f, env):
-        info = self.tr.funcs[f]
+        if f in self.tgt.calls:
+            if self.tgt.calls[f] not in self.tr.exported:
+                raise Untranslatable(n, f"`{f}` is mapped to {self.tgt.calls[f]}, which was not translated earlier in this run")
+            info = self.tr.exported[self.tgt.calls[f]]
+        else:
+            info = self.tr.funcs[f]
         vals = self.match_args(n, [p for p, _ in info["params"]], n.args, n.keywords)
         binds, codes = [], []
         # Python evaluates the arguments in the order they are WRITTEN (positional, then keywords)
         written = list(n.args) + [k.value for k in n.keywords]
         done = {}
         for v in written:
-            b, c, t = self.expr(v, env)
+            if isinstance(v, ast.Lambda) and len(v.args.args) == 1 and not v.args.defaults:      # lambda x: <pure int expression> for a callable parameter
+                bl, cl, tl = self.expr(v.body, {**env, v.args.args[0].arg: "Z"})
+                if bl or tl != "Z":
+                    raise Untranslatable(v, "lambda argument whose body can raise or is not an int")
+                b, c, t = [], f"(fun {ident(v.args.args[0].arg)} => {cl})", "(Z -> Z)"
+            else:
+                b, c, t = self.expr(v, env)
             binds += b
             done[id(v)] = (c, t)
         for (p, ty), v in zip(info["params"], vals):
@@ -432,6 +517,11 @@ class Fn:
             if cv not in env:
                 raise Untranslatable(n, f"closure variable {cv} of {f} is not bound here")
         pre = [ident(cv) for cv in info["closure"]]
+        mine = {pn: ty for _, pn, ty in self.tgt.atoms}
+        for pn, ty in info.get("atoms", []):          # attributes of the same `self` that the callee reads: passed on under the same name
+            if mine.get(pn) != ty:
+                raise Untranslatable(n, f"{f} reads the attribute parameter `{pn}`, which is not an atom of the caller")
+            codes.append(pn)
         if info["recursive"]:
             fuel = "fuel" if f == self.name else f"({self.tgt.fuel})"
             if f != self.name and not self.tgt.fuel:
@@ -464,19 +554,39 @@ class Fn:
         return self.wrap(binds, f"let {ident(name)} := {code} in\n{nxt(e2)}")
 
     def check_mutable(self, name, node):
-        if name not in self.mutated:
+        if name not in self.mutated and name not in self.state:
             raise Untranslatable(node, f"in-place update of `{name}`, which is not a never-aliased local list (see docstring)")
 
     def s_Assign(self, s, env, nxt):
         if len(s.targets) != 1:
             raise Untranslatable(s, "multiple assignment targets")
         tg = s.targets[0]
+        if isinstance(s.value, ast.Call) and unp(s.value.func) == "heapq.heappop":       # x = heappop(h) / (a, b) = heappop(h): also re-binds h
+            h = self.heap_arg(s.value, env, 1)
+            if isinstance(tg, ast.Tuple) and len(tg.elts) == 2 and all(isinstance(e, ast.Name) for e in tg.elts):
+                pat, new = f"'(({ident(tg.elts[0].id)}, {ident(tg.elts[1].id)}), {ident(h)})", {tg.elts[0].id: "Z", tg.elts[1].id: "Z"}
+            elif isinstance(tg, ast.Name):
+                pat, new = f"'({ident(tg.id)}, {ident(h)})", {tg.id: "(Z * Z)"}
+            else:
+                raise Untranslatable(s, "heappop must be bound to a name or a pair of names")
+            return f"bind (pq_pop {ident(h)}) (fun {pat} =>\n{nxt({**env, **new})})"
+        if isinstance(tg, ast.Tuple) and all(isinstance(e, ast.Name) for e in tg.elts):  # (a, b) = <pair>
+            b, c, t = self.expr(s.value, env)
+            if not (t.startswith("(") and t.count("*") == len(tg.elts) - 1 == 1):
+                raise Untranslatable(s, f"unpacking of a {t} into {len(tg.elts)} names")
+            tys = t[1:-1].split(" * ")
+            e2 = dict(env)
+            for e, ty in zip(tg.elts, tys):
+                if e.id in self.state or e.id in env.get("@ren", {}):
+                    raise Untranslatable(s, f"`{e.id}` cannot be re-bound here")
+                e2[e.id] = ty
+            return self.wrap(b, f"let '({', '.join(ident(e.id) for e in tg.elts)}) := {c} in\n{nxt(e2)}")
         if isinstance(tg, ast.Name):
             want = env.get(tg.id)
             b, c, t = self.expr(s.value, env, want)
             return self.bind_var(tg.id, b, c, t, env, nxt, s)
-        if isinstance(tg, ast.Subscript) and isinstance(tg.value, ast.Name) and not isinstance(tg.slice, ast.Slice):
-            x = tg.value.id
+        if isinstance(tg, ast.Subscript) and (isinstance(tg.value, ast.Name) or self.atom(tg.value)) and not isinstance(tg.slice, ast.Slice):
+            x = tg.value.id if isinstance(tg.value, ast.Name) else self.atom(tg.value)[0]
             self.check_mutable(x, s)
             if x not in env or not is_list(env[x]):
                 raise Untranslatable(s, f"`{x}` is not a bound list")
@@ -495,8 +605,41 @@ class Fn:
         b, c, t = self.expr(s.value, env, self.tr.ann(s.annotation, self.tgt, None))
         return self.bind_var(s.target.id, b, c, t, env, nxt, s)
 
+    def s_AugAssign(self, s, env, nxt):
+        """x[i] += e  is  x[i] = x[i] + e  with x and i evaluated once (i is required to be pure)"""
+        tg = s.target
+        if not (isinstance(tg, ast.Subscript) and isinstance(s.op, (ast.Add, ast.Sub)) and not self.expr(tg.slice, env)[0]):
+            raise Untranslatable(s, "augmented assignment other than x[i] += e / x[i] -= e with a non-raising index")
+        load = ast.Subscript(value=tg.value, slice=tg.slice, ctx=ast.Load())
+        new = ast.Assign(targets=[tg], value=ast.BinOp(left=load, op=s.op, right=s.value))
+        for x in (load, new, new.value):
+            ast.copy_location(x, s)
+        return self.s_Assign(new, env, nxt)
+
+    def heap_arg(self, call, env, nargs):
+        """the heap of a heapq call: a never-aliased local list of int pairs"""
+        if len(call.args) != nargs or call.keywords or not isinstance(call.args[0], ast.Name):
+            raise Untranslatable(call, "heapq call on something else than a local name")
+        h = call.args[0].id
+        self.check_mutable(h, call)
+        if env.get(h) != "list (Z * Z)":
+            raise Untranslatable(call, f"heapq on a {env.get(h)} (only lists of int pairs)")
+        return h
+
     def s_Expr(self, s, env, nxt):
         v = s.value
+        if isinstance(v, ast.Call) and unp(v.func) == "heapq.heapify":
+            h = self.heap_arg(v, env, 1)
+            return f"let {ident(h)} := pq_heapify {ident(h)} in\n{nxt(env)}"
+        if isinstance(v, ast.Call) and unp(v.func) == "heapq.heappush":
+            h = self.heap_arg(v, env, 2)
+            b, c, t = self.expr(v.args[1], env)
+            if t != "(Z * Z)":
+                raise Untranslatable(s, f"heappush of a {t}")
+            return self.wrap(b, f"let {ident(h)} := pq_push {ident(h)} {c} in\n{nxt(env)}")
+        if isinstance(v, ast.Call) and unp(v.func) in self.tgt.calls:                   # e.g. super().__post_init__(): run for its exceptions
+            b, c, t = self.expr(v, env)
+            return self.wrap(b, nxt(env))
         if isinstance(v, ast.Constant) and isinstance(v.value, str):
             return nxt(env)                                                        # docstring / bare string
         if isinstance(v, ast.JoinedStr):                                           # bare f-string: no effect if its fields cannot raise
@@ -526,33 +669,36 @@ class Fn:
         if self.ret_type is not None and not same(self.ret_type, t):
             raise Untranslatable(s, f"returns a {t}, other paths / the annotation say {self.ret_type}")
         self.ret_type = t if self.ret_type in (None, "list ?") else self.ret_type
-        if b and b[-1][0] == c:
+        if b and b[-1][0] == c and not self.state:
             return self.wrap(b[:-1], b[-1][1])                                     # tail call
-        return self.wrap(b, f"Ret {c}")
+        return self.wrap(b, self.ret(c))
 
     def site(self, stmt):
-        return self.sites[id(stmt)]
+        return self.sites[id(stmt)] + self.tgt.site_base
 
     def s_Raise(self, s, env, nxt):
         cls = s.exc.func.id if isinstance(s.exc, ast.Call) and isinstance(s.exc.func, ast.Name) else s.exc.id if isinstance(s.exc, ast.Name) else None
-        if cls not in EXN:
-            raise Untranslatable(s, "raise of something else than a known exception class")
-        return f"Raise {cls} {self.site(s)}"
+        if isinstance(s.exc, ast.Name) and env.get(s.exc.id) == "py_exception":       # raise <parameter holding an exception object>
+            cls = "PassedException"
+        elif cls not in EXN:
+            raise Untranslatable(s, "raise of something else than a known exception class or an exception parameter")
+        return self.exc(cls, self.site(s))
 
     def s_Assert(self, s, env, nxt):
         k = self.site(s)
         b, c = self.truthy(s.test, env)
-        return self.wrap(b, f"if {c} then\n{nxt(env)}\nelse Raise AssertionError {k}")
+        return self.wrap(b, f"if {c} then\n{nxt(env)}\nelse {self.exc('AssertionError', k)}")
 
     def s_If(self, s, env, nxt):
         t = s.test
         if isinstance(t, ast.Call) and unp(t.func) == "isinstance" and len(t.args) == 2 and isinstance(t.args[0], ast.Name) \
-                and unp(t.args[1]) == "Sequence" and env.get(t.args[0].id) == "iro_t":
-            x, ren = t.args[0].id, env.get("@ren", {})
+                and unp(t.args[1]) == "Sequence" and env.get(t.args[0].id) in UNIONS:
+            x, ren, union = t.args[0].id, env.get("@ren", {}), env[t.args[0].id]
             branches = []
-            for ctor, suffix, ty, stmts in (("IroSeq", "_seq", "list pynum", s.body), ("IroScalar", "_scalar", "pynum", s.orelse)):
+            (sq, sqt), (sc, sct) = UNIONS[union]
+            for ctor, suffix, ty, stmts in ((sq, "_seq", sqt, s.body), (sc, "_scalar", sct, s.orelse)):
                 e1 = {**env, x: ty, "@ren": {**ren, x: x + suffix}}
-                after = lambda e: nxt({**e, x: "iro_t", "@ren": ren})                # noqa: E731  x has its union type again
+                after = lambda e: nxt({**e, x: union, "@ren": ren})                  # noqa: E731  x has its union type again
                 branches.append(f"| {ctor} {x + suffix} =>\n{self.block(stmts, e1, after)}")
             return f"match {self.gname(x, env)} with\n" + "\n".join(branches) + "\nend"
         if self.no_effect(s.body) and self.no_effect(s.orelse) and not self.truthy(t, env)[0]:
@@ -588,22 +734,32 @@ class Fn:
                     out.append(n.value.id)
                 if isinstance(n, ast.Call) and isinstance(n.func, ast.Attribute) and n.func.attr == "append" and isinstance(n.func.value, ast.Name) and n.func.value.id not in out:
                     out.append(n.func.value.id)
+                if isinstance(n, ast.Call) and unp(n.func) in HEAPQ and n.args and isinstance(n.args[0], ast.Name) and n.args[0].id not in out:
+                    out.append(n.args[0].id)
+                if isinstance(n, ast.Subscript) and isinstance(n.ctx, ast.Store) and self.atom(n.value) and self.atom(n.value)[0] not in out:
+                    out.append(self.atom(n.value)[0])
         return out
 
     def s_For(self, s, env, nxt):
-        if s.orelse or not isinstance(s.target, ast.Name):
-            raise Untranslatable(s, "for loop with else / tuple target")
         b, c, t = self.expr(s.iter, env)
         if not is_list(t):
             raise Untranslatable(s, f"for loop over a {t}")
-        x = s.target.id
-        state = [v for v in self.assigned(s.body) if v in env and v != x]
+        if s.orelse:
+            raise Untranslatable(s, "for loop with else")
+        if isinstance(s.target, ast.Tuple) and len(s.target.elts) == 2 and all(isinstance(e, ast.Name) for e in s.target.elts) \
+                and elem(t).startswith("(") and elem(t).count("*") == 1:           # for a, b in <list of pairs>
+            names, tys = [e.id for e in s.target.elts], elem(t)[1:-1].split(" * ")
+        elif isinstance(s.target, ast.Name):
+            names, tys = [s.target.id], [elem(t)]
+        else:
+            raise Untranslatable(s, "for target other than a name or a pair of names over a list of pairs")
+        x = ident(names[0]) if len(names) == 1 else "'(" + ", ".join(map(ident, names)) + ")"
+        state = [v for v in self.assigned(s.body) if v in env and v not in names]
         if not state:
             raise Untranslatable(s, "for loop that re-binds no local bound before it")
         pat = ident(state[0]) if len(state) == 1 else "'(" + ", ".join(map(ident, state)) + ")"
         tup = ident(state[0]) if len(state) == 1 else "(" + ", ".join(map(ident, state)) + ")"
-        e2 = dict(env)
-        e2[x] = elem(t)
+        e2 = {**env, **dict(zip(names, tys))}
 
         def body_end(e):
             for v in state:
@@ -612,7 +768,7 @@ class Fn:
             return f"Ret {tup}"
         body = self.block(s.body, e2, body_end)
         # names first bound inside the loop are not visible after it
-        return self.wrap(b, f"bind (py_for (fun {pat} {ident(x)} =>\n{body}) {c} {tup}) (fun {pat} =>\n{nxt(dict(env))})")
+        return self.wrap(b, f"bind (py_for (fun {pat} {x} =>\n{body}) {c} {tup}) (fun {pat} =>\n{nxt(dict(env))})")
 
     def s_FunctionDef(self, s, env, nxt):
         self.tr.function(s, self.tgt, enclosing=(self, env))
@@ -622,7 +778,9 @@ class Fn:
 class Translator:
     def __init__(self, repo: Path):
         self.repo = Path(repo)
-        self.funcs: dict = {}          # python name -> {"coq", "params", "closure", "recursive", "ret", "owner"}
+        self.funcs: dict = {}          # python name -> {"coq", "params", "closure", "recursive", "ret", "owner"}: nested / recursive functions of the current target
+        self.by_qual: dict = {}        # "Class.method" -> coq name of its translation (mode "alias")
+        self.exported: dict = {}       # coq name -> the same for every top-level function translated so far (Target.calls)
         self.out: list[str] = []       # Gallina definitions in dependency order
         self.meta: list[dict] = []
 
@@ -660,7 +818,35 @@ class Translator:
         self.meta.append({"file": tgt.file, "function": tgt.qualname, "mode": tgt.mode, "definitions": names,
                           "source_sha256": hashlib.sha256(seg.encode()).hexdigest(), "source_lines": [node.lineno, node.end_lineno]})
 
+    def alias(self, tgt: Target):
+        """mode "alias": which class in the (single-inheritance, same-file) chain of Class defines Class.method?  That class's
+        translation (an earlier target) is given the name Target.coq_name; if no class of the chain defines it - the chain must
+        end in a class listed in Target.names, assumed not to define it - the method does nothing: Ret tt."""
+        src = (self.repo / tgt.file).read_text()
+        classes = {n.name: n for n in ast.parse(src).body if isinstance(n, ast.ClassDef)}
+        cls, meth = tgt.qualname.split(".")
+        first, chain = classes.get(cls), []
+        while True:
+            if cls in tgt.names:
+                self.out.append(f"Definition {tgt.prefix + tgt.coq_name} : result unit := Ret tt.")
+                break
+            node = classes.get(cls)
+            if node is None or len(node.bases) != 1 or not isinstance(node.bases[0], ast.Name) or node.keywords:
+                raise Untranslatable(tgt.qualname, f"class `{cls}` is not a single-inheritance class of {tgt.file} (or a listed root)")
+            chain.append(cls)
+            if any(isinstance(m, ast.FunctionDef) and m.name == meth for m in node.body):
+                if f"{cls}.{meth}" not in self.by_qual:
+                    raise Untranslatable(tgt.qualname, f"resolves to {cls}.{meth}, which is not translated earlier in this run")
+                self.out.append(f"Definition {tgt.prefix + tgt.coq_name} := {self.by_qual[cls + '.' + meth]}.")
+                break
+            cls = node.bases[0].id
+        seg = "\n".join(ast.get_source_segment(src, classes[c]) for c in chain)
+        self.meta.append({"file": tgt.file, "function": tgt.qualname, "mode": "alias", "definitions": [tgt.prefix + tgt.coq_name],
+                          "source_sha256": hashlib.sha256(seg.encode()).hexdigest(), "source_lines": [first.lineno, first.end_lineno] if first else []})
+
     def translate(self, tgt: Target):
+        if tgt.mode == "alias":
+            return self.alias(tgt)
         src, node = self.find(tgt)
         n0, self.funcs = len(self.out), {}
         {"function": self.function, "exprs": self.exprs, "prefix": self.prefix}[tgt.mode](node, tgt)
@@ -678,8 +864,9 @@ class Translator:
 
     @staticmethod
     def fresh_lists(fdef):
-        """locals that may be updated in place: bound exactly once, to a list display or list(..), and every other occurrence is
-        an in-place update or a read that cannot create an alias (subscript, len/tuple/list/sum argument, operand of +, return)"""
+        """locals that may be updated in place: bound exactly once, to a list display, a list comprehension, list(..) or [..] * n, and
+        every other occurrence is an in-place update (item assignment, append, heapq call) or a read that cannot create an alias
+        (subscript, len/tuple/list/sum argument, operand of +, return)"""
         parents = {}
         for p in ast.walk(fdef):
             for c in ast.iter_child_nodes(p):
@@ -689,7 +876,9 @@ class Translator:
             if isinstance(n, ast.Name) and isinstance(n.ctx, ast.Store):
                 stores[n.id] = stores.get(n.id, 0) + 1
                 p = parents.get(n)
-                if isinstance(p, ast.Assign) and (isinstance(p.value, ast.List) or (isinstance(p.value, ast.Call) and unp(p.value.func) == "list")):
+                fresh = isinstance(p, ast.Assign) and (isinstance(p.value, (ast.List, ast.ListComp)) or (isinstance(p.value, ast.Call) and unp(p.value.func) == "list")
+                                                       or (isinstance(p.value, ast.BinOp) and isinstance(p.value.op, ast.Mult) and isinstance(p.value.left, ast.List)))
+                if fresh:
                     cand.add(n.id)
         ok = {v for v in cand if stores[v] == 1} - {a.arg for a in fdef.args.args}
         for n in ast.walk(fdef):
@@ -697,7 +886,8 @@ class Translator:
                 p = parents.get(n)
                 safe = (isinstance(p, ast.Subscript) and p.value is n) or (isinstance(p, ast.BinOp) and isinstance(p.op, ast.Add)) \
                     or (isinstance(p, ast.Call) and unp(p.func) in ("len", "tuple", "list", "sum", "prod") and n in p.args) \
-                    or (isinstance(p, ast.Attribute) and p.attr == "append" and p.value is n) or isinstance(p, ast.Return)
+                    or (isinstance(p, ast.Attribute) and p.attr == "append" and p.value is n) or isinstance(p, ast.Return) \
+                    or (isinstance(p, ast.Call) and unp(p.func) in HEAPQ and p.args and p.args[0] is n)
                 if not safe:
                     ok.discard(n.id)
         return ok
@@ -729,10 +919,14 @@ class Translator:
         ret = self.ann(fdef.returns, tgt, None) if fdef.returns is not None else None
         fn = Fn(self, tgt, fdef.name, recursive)
         fn.sites = self.sites_of(fdef)
-        fn.ret_type = ret
+        fn.ret_type = None if ret == "unit" else ret
         fn.mutated = self.fresh_lists(fdef)
         env = {v: enclosing[1][v] for v in closure}
         env.update(dict(params))
+        extra = []                                   # attributes of self: read-only atoms and updated state lists become parameters
+        if enclosing is None:
+            extra = [(pn, ty) for _, pn, ty in [*tgt.atoms, *tgt.state]]
+            env.update({pn: ty for _, pn, ty in tgt.state})
         if recursive or enclosing is not None:       # visible to its own body and to the rest of the enclosing function
             if ret is None:
                 raise Untranslatable(fdef, "a called function needs a return annotation")
@@ -740,9 +934,17 @@ class Translator:
                                      "owner": enclosing[0].name if enclosing else None}
 
         def fall(e):
-            raise Untranslatable(fdef, "a path reaches the end of the function without return/raise")
+            if ret != "unit":
+                raise Untranslatable(fdef, "a path reaches the end of a function not annotated `-> None` without return/raise")
+            return fn.ret("tt")
         body = fn.block(fdef.body, env, fall)
-        self.emit(coq, recursive, [(v, env[v]) for v in closure] + params, fn.ret_type, body)
+        rt = fn.ret_type or ret
+        if tgt.state and enclosing is None:
+            rt = f"completion ({rt}) * ({' * '.join(ty for _, _, ty in tgt.state)})"
+        self.emit(coq, recursive, [(v, env[v]) for v in closure] + params + extra, rt, body)
+        if enclosing is None and not recursive and not tgt.state:
+            self.by_qual[tgt.qualname] = coq
+            self.exported[coq] = {"coq": coq, "params": params, "atoms": [(pn, ty) for _, pn, ty in tgt.atoms], "closure": [], "recursive": False, "ret": rt}
 
     def exprs(self, fdef, tgt):
         for name in tgt.names:
